@@ -23,10 +23,22 @@ RULE = ("one case = one generation run (basis, complexities 1..n, P ranks, relea
         "make_changes / load_subs / initial_sympify on N items under P ranks, or one check_results run; non-trivial = P>=2 (and N>=1 for the isolated "
         "calls); distinct by (basis, n, P, delay seed) resp. (function, N, P)")
 EXPLANATION = LEVEL_TEXT
-TRUSTED = ["rank-taint analysis in harness/extractors/spmd.py (flow-sensitive, per function; sound for the constructs it recognises, fails closed otherwise)",
-           "harness/extractors/gather.py: symbolic reading of the index variables of make_changes / check_results (straight-line code, split_idx case "
-           "split, rank-0 block between gather and bcast); fails closed on other shapes; the loops around them (chidx comprehension, update loop, "
-           "flagging loop) are shape-checked, their bodies' per-item work is not modelled",
+TRUSTED = ["rank-taint analysis in harness/extractors/spmd.py (flow-sensitive per function, both branches of an `if` joined, names bound under a rank-dependent "
+           "condition tainted, calls of straight-line helpers whose return value is rank-dependent tainted; sound for the constructs it recognises, fails closed "
+           "otherwise); every split_idx result, in any function of the three modules, may only be read under a test of its emptiness",
+           "harness/extractors/gather.py: abstract reading of make_changes / check_results (index terms over len/rank/size/split_idx with the emptiness case "
+           "split in any spelling, gather/bcast/allgather/scatter of per-rank values, rank-0 steps [0]+x / np.cumsum / x.cumsum() / np.insert / np.concatenate / "
+           "x[k:], the changed-index list and the selections over range/enumerate, the update loop over the ranks with its inner loops over range/enumerate/zip "
+           "and local aliases, `None if v is None else v.copy()` in any spelling as the value v, the flagging loop over range/enumerate, chain / nested "
+           "comprehension / sum(x, []) flattening, the shuffle-index mapping as loop or comprehension); statements made for their effect poison what they "
+           "mention; fails closed on everything else; the per-item work inside the flagging loop is not modelled",
+           "harness/extractors/_norm_c13.py, semantics-preserving rewrites applied before reading: one level of inlining of straight-line module helpers "
+           "(arguments bound in call order, locals renamed apart, early return -> else, a helper global shadowed by a caller local is an error); "
+           "`x = a if c else b` -> if/else; `a = b = v` -> `a = v; b = a`; a loop that only appends (optionally under `if c: continue` guards / one `if`) "
+           "to lists created empty directly before it -> one comprehension per list (iterable, conditions and items side-effect free and not mentioning the "
+           "lists); `not (a == b)` <-> `a != b`, `is`/`is not`, `in`/`not in`, double negation, De Morgan, integer literal moved to the right of ==/!=, in "
+           "test position only (`!=` is the negation of `==` for the compared str/int/None values; `<`/`>=` never swapped); "
+           "`itertools.chain.from_iterable(x)` -> `itertools.chain(*x)`",
            "make_changes model: all ranks enter with equal all_fun/all_sym/all_inv_subs; the three lists are written independently; `.copy()` is a value",
            "per-item computations are functions of the item (sympy caches, hash order: PYTHONHASHSEED fixed) - hypothesis `hpure`, sampled by the differential runs",
            "stand-in collectives pickle payloads like mpi4py lowercase methods; no real MPI progress engine"]
@@ -35,6 +47,15 @@ ASSUMPTIONS = ["exceptions other than the empty-block unpacking are not modelled
                "lists are slices all_fun[imin:imax]; read, not extracted)"]
 MODELLED = ["simplifier.py:make_changes", "simplifier.py:initial_sympify", "simplifier.py:load_subs", "simplifier.py:check_results",
             "simplifier.py:expand_or_factor", "utils.py:split_idx", "generator.py:shape_to_functions"]
+
+# When gather.py cannot read a refactored make_changes / check_results the committed table stands in as a hand-written model: it is then tied to
+# the code only dynamically, at thorough depth (drifted() lists the table): the REAL make_changes under 1..17 ranks on every N <= 40 against the
+# model interpreting that table (and against the rank-count-free oracle), and the real check_results' un-merged index lists on synthetic
+# libraries with wrong merges under 1,2,3,5,7 ranks against `flaggedIndices` of that table.  The SPMD skeleton has no such exhaustive dynamic
+# counterpart (a run samples a few schedules) and stays strict.
+FALLBACK = {"Gather": "real make_changes in isolation for every (N, P) <= (40, 17) vs the Lean makeChanges model over the committed index terms (count, cmpBase, "
+                      "steps, shift), and real check_results' un-merged index lists on synthetic libraries under 1,2,3,5,7 ranks vs the Lean flaggedIndices model "
+                      "(slice bounds, offset)"}
 
 BYTE_FILES = ["trees", "orig_trees", "extra_trees", "all_equations", "aifeyn", "orig_aifeyn", "extra_aifeyn"]
 
